@@ -15,8 +15,8 @@ def strip_ts(msg):
 
 
 # --------------------------------------------------------------------------------- scenario
-def gen_scenario(R, size="small"):
-    nitems = R.choice([1, 1, 2, 2, 3])
+def gen_scenario(R, size="small", max_items=3):
+    nitems = min(max_items, R.choice([1, 1, 2, 2, 3]))
     items = ["item%d" % i for i in range(1, nitems + 1)]
     seqs = []
     for it in items:
